@@ -22,7 +22,26 @@ EXACT_SOURCES = ["vh_main.cpp", "vh_support.cpp", "vh_spline.cpp"]
 FAMILIES = {
     "Sup": ("MC_Sup", "MC_Sup.cfg"),
     "Spl": ("MC_Spl", "MC_Spl.cfg"),
+    "Ops": ("MC_Ops", "MC_Ops.cfg"),
 }
+OPS_SOURCES = EXACT_SOURCES + ["vh_ops.cpp"]
+
+
+def build_family(family, variant, cases_path):
+    """The exact-scalar harness for a family.  Operator expressions are C++
+    template instantiations: for the Ops family the generated translation
+    units (one struct per AST TLC enumerated) are part of the build."""
+    if family != "Ops":
+        return vlib.build(variant, EXACT_SOURCES)
+    import gen_expr
+    all_lines = open(cases_path).read().splitlines()
+    gdir = os.path.join(vlib.CACHE, "gen_src", vlib.sha(vlib.tree_hash([cases_path]), "v1"))
+    marker = os.path.join(gdir, "done")
+    if not os.path.exists(marker):
+        files, na, nb = gen_expr.gen(all_lines, gdir, 32)
+        open(marker, "w").write("%d %d" % (na, nb))
+    files = sorted(os.path.join(gdir, f) for f in os.listdir(gdir) if f.endswith(".cpp"))
+    return vlib.build(variant, OPS_SOURCES, name="vh_ops", gen_sources=files)
 
 
 def nontrivial(c):
@@ -33,6 +52,10 @@ def nontrivial(c):
     def iv(s):
         return isinstance(s, dict) and s.get("e", 0) - s.get("s", 0) >= 2
 
+    if op == "OpApply":
+        return iv(c["a"])
+    if op == "OpBF":
+        return iv(c["a"]) and iv(c["b"])
     if op in ("SupBin", "SplBin"):
         return iv(c["a"]) and iv(c["b"])
     if op == "SupTri":
@@ -49,7 +72,8 @@ def case_key(c):
     placement of the windows, orders, grid size)."""
     def w(s):
         return (s.get("s"), s.get("e"), s.get("o"), len(s.get("g", []))) if isinstance(s, dict) else None
-    return json.dumps([c.get("op"), w(c.get("a")), w(c.get("b")), w(c.get("c")), c.get("share"), c.get("top"), c.get("i")])
+    return json.dumps([c.get("op"), w(c.get("a")), w(c.get("b")), w(c.get("c")), c.get("share"), c.get("top"), c.get("i"),
+                       c.get("ast"), c.get("e1"), c.get("e2"), [w(f) for f in c.get("fs", [])] if isinstance(c.get("fs"), list) else None])
 
 
 class Ctx:
@@ -85,7 +109,7 @@ def stateless(ctx, family, ops, variant="exact", prop_view=None, consts=None, ca
             lines.append(l)
     if not lines:
         raise MachineryFailure("no cases generated for %s/%s" % (family, sorted(ops)))
-    binp = vlib.build(variant, EXACT_SOURCES)
+    binp = build_family(family, variant, cases_path)
     run_and_judge(ctx, family, binp, lines, prop_view or ctx.prop)
 
 
@@ -152,7 +176,27 @@ def c15(ctx):
     stateless(ctx, "Spl", {"SplUn", "SplBin"}, case_filter=same_grid)
 
 
+def c04(ctx):
+    stateless(ctx, "Ops", {"OpApply"}, case_filter=lambda c: c["tag"] == "prim")
+
+
+def c05(ctx):
+    stateless(ctx, "Ops", {"OpApply"}, case_filter=lambda c: c["tag"] == "expr")
+
+
+def c06(ctx):
+    stateless(ctx, "Ops", {"OpBF"}, case_filter=lambda c: c["tag"] == "bf")
+
+
+def c07(ctx):
+    stateless(ctx, "Ops", {"OpApply", "OpBF"}, case_filter=lambda c: c["tag"] in ("bf", "expr", "prim"))
+
+
 PROPS = {
+    "C04": dict(fn=c04, level="model_checking"),
+    "C05": dict(fn=c05, level="model_checking"),
+    "C06": dict(fn=c06, level="model_checking"),
+    "C07": dict(fn=c07, level="model_checking"),
     "C02": dict(fn=c02, level="model_checking"),
     "C03": dict(fn=c03, level="model_checking"),
     "C13": dict(fn=c13, level="model_checking"),
@@ -215,7 +259,12 @@ def main():
 def replay(ctx, path):
     r = json.load(open(path))
     c = r["case"]
-    binp = vlib.build("exact", EXACT_SOURCES)
+    if c.get("op") in ("OpApply", "OpBF"):
+        mc, cfg = FAMILIES["Ops"]
+        cases_path, _ = vlib.gen(mc, cfg, ctx.consts(), ctx.tier)
+        binp = build_family("Ops", "exact", cases_path)
+    else:
+        binp = vlib.build("exact", EXACT_SOURCES)
     run_and_judge(ctx, "replay", binp, [json.dumps(c)], r.get("property", ctx.prop), confirm=False)
     for c, ev, note in ctx.violations:
         print("VIOLATION property=%s replay=%s" % (ctx.prop, path))
